@@ -403,7 +403,7 @@ func solveUnits(rs []*UnitResult, opts solveOpts) {
 				to = 4 * time.Second // advisory only: do not spend the full budget on them
 			}
 			if o.Canary {
-				to = 3 * time.Second
+				to = 1500 * time.Millisecond // contradictions among ground facts show up fast; "sat" with quantifiers does not
 				_ = os.MkdirAll(opts.workdir, 0o755)
 				_ = os.WriteFile(o.Query, []byte(q), 0o644)
 				res := runSolver("z3-new", o.Query, to)
